@@ -230,3 +230,23 @@ Definition mon_http_parse (inp obs : list Z) : bool :=
   | 1 :: _ :: _ :: n :: ps => peers_wf ps && (zlen ps =? 2 * n)
   | _ => false
   end.
+
+(* ---- the configured limit on an HTTP tracker reply (httptracker.Announce, kind 1605) ----
+   declared = Content-Length header (None: streamed); the body is read through a LimitReader *)
+Definition read_reply (limit : Z) (declared : option Z) (stream : list Z) : option (list Z) :=
+  match declared with
+  | Some n => if n >? limit then None else Some (firstn (Z.to_nat limit) stream)
+  | None => Some (firstn (Z.to_nat limit) stream)
+  end.
+
+(* in = [mode limit size npeers]: a well-formed reply of [size] bytes carrying npeers compact peers;
+   a reply cut short does not decode *)
+Definition run_resp_limit (inp : list Z) : list Z :=
+  match inp with
+  | [mode; limit; size; npeers] =>
+      match read_reply limit (if mode =? 0 then Some size else None) (repeat 0 (Z.to_nat size)) with
+      | Some got => if zlen got =? size then [1; npeers] else [0; 0]
+      | None => [0; 0]
+      end
+  | _ => [-779]
+  end.
